@@ -122,6 +122,22 @@ pub fn plan(prop: &str) -> Option<Plan> {
             ],
             watchdog_s: 20,
         },
+        "C12" => Plan {
+            prop: "C12",
+            level: "exploration",
+            quick_runs: 150_000,
+            thorough_runs: 5_000_000,
+            chunk: 2_500,
+            builds: &[("checked", 1.0)],
+            rule: "one case = one seeded run of the front-end environment simulation: a generator draws a small schema (1-6 definitions: INTEGER ranges, SIZE constraints of strings / lists, DEFAULT values of integer / boolean / string components inside SEQUENCE, CHOICE, SET), prints it once with literals and once with a drawn subset of the literals replaced by value references that live in the same module (before or after their use), in a sibling imported by name, in a sibling with OID imported by name + OID, or in a sibling imported under another name with the right OID (match by OID only); optionally a same-named module with another OID and other values (decoy) and an unrelated module are added. The environment loads the module set in EVERY permutation (<= 4 modules) or 8 sampled ones through Tokenizer -> Model::try_from -> MultiModuleResolver::push -> try_resolve_all. Oracle: in every load order the resolved definitions of the referencing module equal (Debug of Vec<Definition<Asn<Resolved>>>) those of the literal module; fault E-MISSING (a needed sibling not loaded), a reference renamed to an undefined name, and a BOOLEAN/string value where an integer bound is needed must give Err, never Ok. Non-trivial = at least one reference was resolved in every order; distinct = distinct event-log hash.",
+            real: &["Tokenizer", "Model::try_from", "MultiModuleResolver::{push,try_resolve_all}", "ResolveScope / LitOrRef resolvers"],
+            stub: &["file system and read_dir order (an in-memory module set loaded in a drawn permutation; Converter itself is not executed)"],
+            assumptions: &[
+                "claimed narrowly: the environment dimension (module set, load order, match by name vs OID, missing module) is decided; the schema dimension is only sampled by a small generator",
+                "equality = Debug text of the resolved definitions",
+            ],
+            watchdog_s: 20,
+        },
         "C14" => Plan {
             prop: "C14",
             level: "fault_enumeration",
@@ -1187,6 +1203,7 @@ fn expected_probes(prop: &str) -> &'static [&'static str] {
         "C01" => &["back_to_back_stream>=2", "fragmented_length_seen"],
         "C04" => &["read_failed_then_accessors_called", "truncated_delivery", "EINTR_retried"],
         "C05" => &["unknown_addition_present", "unknown_alternative_or_value_selected", "message_longer_than_127_octets"],
+        "C12" => &["reference_local", "reference_import_by_name", "reference_import_by_name_and_oid", "reference_import_by_oid_only", "same_name_other_oid_decoy_loaded"],
         "C14" => &["multi_module_scope", "fault_point_enumeration_modules"],
         "C17" => &["exact_fit_slice", "EINTR_retried", "roundtrip_equal_only_up_to_default_equivalence"],
         "C19" => &["dde_error_carries_description", "fault_free_delivery_compared"],
